@@ -15,7 +15,7 @@ for f in $wt/zz_seed_test.go $wt/log/zz_seed_test.go; do [ -f $f ] && cp $f $out
 pkgdir=.; [ -f $wt/log/zz_seed_test.go ] && pkgdir=./log
 cd $wt
 # make sure the tree holds exactly the patch (plus untracked deliverables)
-git checkout -q -- . && git apply $out/patch.diff || { echo "PATCH DOES NOT APPLY to a clean worktree"; exit 3; }
+git checkout -q -- . && git checkout -q --detach $(git -C /repo rev-parse HEAD) && git apply $out/patch.diff || { echo "PATCH DOES NOT APPLY to a clean worktree at /repo's HEAD"; exit 3; }
 echo "== demo WITH change"; (timeout 600 go test -vet=off -count=1 -run TestSeedDemo $pkgdir 2>&1 | grep -v "INFO\|WARN" | tail -4) | tee $out/demo_with.txt
 git apply -R $out/patch.diff; echo "== demo WITHOUT change"; (timeout 600 go test -vet=off -count=1 -run TestSeedDemo $pkgdir 2>&1 | grep -v "INFO\|WARN" | tail -3) | tee $out/demo_without.txt; git apply $out/patch.diff
 SV=/tmp/seedverif_$id
